@@ -27,7 +27,7 @@ pub fn check(tier: Tier) -> Check {
         also_rel: true,
         property: "C16",
         level: "model_checking",
-        rule: "every event script (operation starts, acknowledgements, subscribe/stream/inbound message) up to the stated depth x polling discipline {wake-only, sweep of all tasks after every event, one spurious poll inserted at every position for every task} x {whole-packet, 1-byte, 2-, 3-, 5-byte re-chunked reads} x {accept-all, 1-byte, Pending-first writes}; scripts include two packets arriving in one read and a packet with a two-byte remaining length; evaluations counts single runs; non-trivial = a script in which at least one operation completed through an acknowledgement".into(),
+        rule: "every event script (operation starts, acknowledgements, subscribe/stream/inbound message) up to the stated depth x polling discipline {wake-only, sweep of all tasks after every event, one spurious poll inserted at every position for every task} x {whole-packet, 1-byte, 2-, 3-, 5-byte re-chunked reads} x {accept-all, 1-byte, Pending-first, half-then-Pending writes}; scripts include two packets arriving in one read and a packet with a two-byte remaining length; evaluations counts single runs; non-trivial = a script in which at least one operation completed through an acknowledgement".into(),
         assumptions: vec!["conformant broker".into()],
         parts,
     }
@@ -174,7 +174,7 @@ pub fn scenario(name: &str, params: &Value) -> Scenario {
             tids.extend((0..ntasks_ops).map(Tid::Op));
             tids.extend((0..nstreams).map(Tid::Stream));
 'outer: for (bytewise, chunk) in [(false, None), (true, None), (false, Some(2usize)), (false, Some(3)), (false, Some(5))] {
-                for write in [WriteMode::All, WriteMode::OneByte, WriteMode::PendingEach] {
+                for write in [WriteMode::All, WriteMode::OneByte, WriteMode::PendingEach, WriteMode::HalfThenPending] {
                     if chunk.is_some() && write != WriteMode::All {
                         continue;
                     }
